@@ -677,7 +677,7 @@ var c15Blocked int // number of hub-never-blocked failures so far (part b is seq
 
 func c15NewWS(c *core.Ctx, logs *c15LogBuf, kind string, n, ver int, filter string, hFirst bool) *c15WS {
 	w := &c15WS{c: c, logs: logs, kind: kind, n: n, ver: ver, filter: filter, hFirst: hFirst, nextID: 1, failed: map[string]bool{}}
-	w.deadline = time.Second
+	w.deadline = 3 * time.Second // generous: a healthy hub answers in microseconds, a loaded machine must not look like a blocked hub
 	if c15Blocked >= 4 {
 		w.deadline = 300 * time.Millisecond // the point is made; do not spend a second per further witness
 	}
